@@ -13,8 +13,9 @@ use std::time::{Duration, Instant};
 
 const TIMEOUT_MS: u64 = 700;
 const MEM_LIMIT: usize = 64 << 20;
-const KINDS: [char; 9] = ['A', 'P', 'S', 'M', 'X', 'B', 'L', 'U', 'H'];
+const KINDS: [char; 10] = ['A', 'P', 'S', 'M', 'X', 'B', 'L', 'U', 'H', 'R'];
 const WORK_MS: u64 = 200;
+const BIG_REPLY: usize = 20 << 20;
 const IDLE_KINDS: [char; 4] = ['A', 'W', 'G', 'g'];
 const MARKER: &str = "c18-deliberate-panic";
 
@@ -27,6 +28,7 @@ pub enum Req {
     Alloc(usize, i64),
     Exit(i32, i64),
     Big(Vec<u8>, i64),
+    BigReply(usize, i64),
 }
 
 #[derive(Serialize, Deserialize, Debug)]
@@ -35,6 +37,7 @@ pub struct Res {
     pid: u32,
     len: usize,
     sum: u64,
+    data: Vec<u8>,
 }
 
 #[derive(Serialize, Deserialize, Clone)]
@@ -63,7 +66,7 @@ impl Service for TestService {
     fn handle(&self, request: Req) -> Res {
         let pid = std::process::id();
         match request {
-            Req::Add(a, b) => Res { value: a + b, pid, len: 0, sum: 0 },
+            Req::Add(a, b) => Res { value: a + b, pid, len: 0, sum: 0, data: vec![] },
             Req::Panic(tag) => panic!("{} {}", MARKER, tag),
             // a long report in a multi-byte script: any byte offset is likely to fall inside a character
             // four-byte characters after `pad` one-byte ones: whatever byte offset a consumer cuts at,
@@ -71,14 +74,16 @@ impl Service for TestService {
             Req::LongPanic(tag, pad) => panic!("{} {} {}{}", MARKER, tag, "x".repeat(pad), "\u{1d4b3}".repeat(3000)),
             Req::Sleep(ms, tag) => {
                 std::thread::sleep(Duration::from_millis(ms));
-                Res { value: tag, pid, len: 0, sum: 0 }
+                Res { value: tag, pid, len: 0, sum: 0, data: vec![] }
             }
             Req::Alloc(n, tag) => {
                 let v: Vec<u8> = vec![1u8; n];
-                Res { value: tag, pid, len: v.len(), sum: v.iter().map(|x| *x as u64).sum() }
+                Res { value: tag, pid, len: v.len(), sum: v.iter().map(|x| *x as u64).sum(), data: vec![] }
             }
             Req::Exit(code, _tag) => std::process::exit(code),
-            Req::Big(data, tag) => Res { value: tag, pid, len: data.len(), sum: data.iter().map(|x| *x as u64).sum() },
+            Req::Big(data, tag) => Res { value: tag, pid, len: data.len(), sum: data.iter().map(|x| *x as u64).sum(), data: vec![] },
+            // a small request with a large reply (larger than any sensible frame cap a reader might apply)
+            Req::BigReply(n, tag) => Res { value: tag, pid, len: n, sum: 0, data: (0..n).map(|k| (k % 251) as u8).collect() },
         }
     }
 }
@@ -106,6 +111,7 @@ pub fn seq_main(kinds: &str, gap_ms: u64) -> ! {
                 '1' | '2' | '3' => Req::LongPanic(tag, *k as usize - '0' as usize),
                 // larger than the pipe capacity AND the child's memory limit: the child dies reading it
                 'H' => Req::Big(vec![7u8; MEM_LIMIT + (16 << 20)], tag),
+                'R' => Req::BigReply(BIG_REPLY, tag),
                 'S' => Req::Sleep(TIMEOUT_MS * 10, tag),
                 // overruns the limit only slightly: its late reply must never reach a later request
                 'L' => Req::Sleep(TIMEOUT_MS + TIMEOUT_MS / 2, tag),
@@ -126,7 +132,7 @@ pub fn seq_main(kinds: &str, gap_ms: u64) -> ! {
             let el = t0.elapsed().as_millis() as u64;
             let line = match r {
                 Err(_) => json!({"i": i, "kind": k.to_string(), "result": "WEDGED", "ms": el}),
-                Ok(Ok(resp)) => json!({"i": i, "kind": k.to_string(), "result": "ok", "value": resp.result.value, "pid": resp.result.pid, "len": resp.result.len, "sum": resp.result.sum, "ms": el}),
+                Ok(Ok(resp)) => json!({"i": i, "kind": k.to_string(), "result": "ok", "value": resp.result.value, "pid": resp.result.pid, "len": resp.result.len, "sum": resp.result.sum, "data_len": resp.result.data.len(), "data_sum": resp.result.data.iter().map(|x| *x as u64).sum::<u64>(), "ms": el}),
                 Ok(Err(e)) => json!({"i": i, "kind": k.to_string(), "result": "err", "error": format!("{:?}", e).split('(').next().unwrap_or("").to_string(), "message": e.to_string(), "ms": el}),
             };
             println!("{}", line);
@@ -302,6 +308,21 @@ fn judge(kinds: &str, lines: &[Value]) -> Vec<(String, String)> {
             bad.push(("reply arrives later than the time limit allows".to_string(), ctx("too late")));
         }
         match k {
+            'R' => {
+                let want: u64 = (0..BIG_REPLY).map(|k| (k % 251) as u64).sum();
+                if !(res == "ok" && l["value"].as_i64() == Some(tag) && l["data_len"].as_u64() == Some(BIG_REPLY as u64) && l["data_sum"].as_u64() == Some(want)) {
+                    bad.push((format!("request with a 20 MiB reply after [{}] is not served with its own reply", prefix_class(&ks[..i])), ctx("expected the complete reply")));
+                    continue;
+                }
+                let pid = l["pid"].as_u64().unwrap_or(0) as u32;
+                if need_new_pid {
+                    if Some(pid) == last_fault_pid {
+                        bad.push(("request after a failure is served by the failed child".to_string(), ctx("same pid as before the failure")));
+                    }
+                    need_new_pid = false;
+                }
+                current_pid = Some(pid);
+            }
             'W' => {
                 if !(res == "ok" && l["value"].as_i64() == Some(tag)) {
                     bad.push((
@@ -402,13 +423,13 @@ impl Space for C18 {
         Meta {
             id: "C18",
             level: "fault_enumeration",
-            rule: format!("every sequence of length <= {} over the nine request kinds {{normal, panic, overrun of the time limit by 10x, overrun by 1.5x (its reply arrives late), allocation beyond the memory limit, child exit, 2 MiB payload, panic with a 12 kB report in a four-byte script (also at each of the four byte alignments), request payload larger than the child's memory limit}}, each followed by two normal requests, x gap in {{0 ms, 400 ms}} after each fault; plus every sequence over {{normal, slow-but-legal (200 ms), idle 1.5x the limit, idle 0.5x the limit}} followed by a slow and a normal request (idle time between requests must not count against the limit); run against the real rink_sandbox::Sandbox with real child processes (one parent process per sequence). Oracle: every execute returns within the time limit + 2.5 s; reply i belongs to request i (unique operands / payload checksum); normal and large requests succeed whatever preceded them; panic -> Error::Panic with the marker, overrun -> Timeout, memory/exit -> Crashed; after a fault the next reply comes from another process and the failed child is gone; no process of the group outlives the parent. Non-trivial = the sequence contains a fault followed by a request (all do); distinct by (sequence, gap)", self.lens.last().unwrap()),
+            rule: format!("every sequence of length <= {} over the ten request kinds {{normal, panic, overrun of the time limit by 10x, overrun by 1.5x (its reply arrives late), allocation beyond the memory limit, child exit, 2 MiB payload, panic with a 12 kB report in a four-byte script (also at each of the four byte alignments), request payload larger than the child's memory limit, small request with a 20 MiB reply}}, each followed by two normal requests, x gap in {{0 ms, 400 ms}} after each fault; plus every sequence over {{normal, slow-but-legal (200 ms), idle 1.5x the limit, idle 0.5x the limit}} followed by a slow and a normal request (idle time between requests must not count against the limit); run against the real rink_sandbox::Sandbox with real child processes (one parent process per sequence). Oracle: every execute returns within the time limit + 2.5 s; reply i belongs to request i (unique operands / payload checksum); normal and large requests succeed whatever preceded them; panic -> Error::Panic with the marker, overrun -> Timeout, memory/exit -> Crashed; after a fault the next reply comes from another process and the failed child is gone; no process of the group outlives the parent. Non-trivial = the sequence contains a fault followed by a request (all do); distinct by (sequence, gap)", self.lens.last().unwrap()),
             assumptions: vec![
                 format!("service time limit {} ms (hundreds of times a normal round trip); a sequence whose only anomaly is timing is re-run once alone before being believed", TIMEOUT_MS),
                 "child memory limit 64 MiB, RUST_BACKTRACE=0".into(),
             ],
             exhaustive: true,
-            extra: json!({"families": self.fams.summary(), "request_kinds": {"A": "normal add", "P": "panic", "S": "sleep 10x the limit", "L": "sleep 1.5x the limit (late reply)", "M": "allocate 4x the limit", "X": "exit(3)", "B": "2 MiB payload echo", "U": "panic with a long non-ASCII report", "1/2/3": "the same with 1/2/3 bytes of padding", "H": "80 MiB payload (beyond the child's 64 MiB)", "W": "sleep 200 ms (legal)", "G": "no request: idle 1.5x the limit", "g": "no request: idle 0.5x the limit"}}),
+            extra: json!({"families": self.fams.summary(), "request_kinds": {"A": "normal add", "P": "panic", "S": "sleep 10x the limit", "L": "sleep 1.5x the limit (late reply)", "M": "allocate 4x the limit", "X": "exit(3)", "B": "2 MiB payload echo", "U": "panic with a long non-ASCII report", "1/2/3": "the same with 1/2/3 bytes of padding", "H": "80 MiB payload (beyond the child's 64 MiB)", "R": "small request, 20 MiB reply", "W": "sleep 200 ms (legal)", "G": "no request: idle 1.5x the limit", "g": "no request: idle 0.5x the limit"}}),
         }
     }
     fn len(&self) -> u64 {
